@@ -87,7 +87,7 @@ def oracle(prog, out):
             replaced = ini["executor"] == "reusable" and ini["resize_at"]    # a broken singleton is replaced by a fresh one
             if ini["fail_on"] and min(ini["fail_on"]) < o["nspawns"] and not broken_seen and not o.get("broke") and not replaced:
                 v.append(("initializer_failure_did_not_break_pool", f"spawn {min(ini['fail_on'])} failed its initializer "
-                          f"({o['nspawns']} spawns) but the pool still accepted and ran work 15 s later: {o['results'][:5]}"))
+                          f"({o['nspawns']} spawns) but the pool still accepted and ran work 8 s later: {o['results'][:5]}"))
         elif part == "main":
             if o["rc"] != 0 or f"RESULT {o['expected']}" not in o["stdout"]:
                 v.append(("guardless_script_failed", f"rc={o['rc']} stdout={o['stdout']!r} stderr={o['stderr'][-200:]!r}"))
